@@ -22,6 +22,12 @@ type StoreCfg struct {
 	Flusher     bool   `json:"flusher,omitempty"`  // call Start()
 	ShortKeys   bool   `json:"short_keys,omitempty"`
 	SyncOnFlush bool   `json:"sync_on_flush,omitempty"` // fsync the three files as part of every flush
+	// Aged > 0: the store does not start empty but in the state a long-lived
+	// store reaches after GC has released its first Aged index and primary
+	// files: headers whose first-file number is Aged and an empty file of that
+	// number. Chosen so that file number * file-size limit is >= 2^32 (with the
+	// default 1 GiB limits that is file 4; with 16-byte files, file 2^28).
+	Aged int `json:"aged,omitempty"`
 }
 
 // Op is one generated operation.
@@ -133,6 +139,15 @@ func genCfg(r *simrt.Rand, thorough bool) StoreCfg {
 	c.FileCache = []int{0, 1, 2, 512}[r.Weighted([]int{2, 2, 2, 4})]
 	c.ShortKeys = r.Chance(0.1)
 	c.SyncOnFlush = r.Chance(0.15)
+	if r.Chance(0.15) {
+		// first-file number large enough that file number * file-size limit no
+		// longer fits 32 bits for either kind of file
+		m := c.IndexFile
+		if c.PrimaryFile < m {
+			m = c.PrimaryFile
+		}
+		c.Aged = int((uint64(1)<<32)/uint64(m)) + r.Intn(3)
+	}
 	return c
 }
 
